@@ -13,6 +13,7 @@ HEADER = """use super::*;
 use crate::interpreter::verif_isupport::*;
 use crate::Interpreter;
 use crate::program::Program;
+use crate::value::Value;
 
 /// verdict of the static checker for the statement at line 10 (None = accepted)
 fn analyze(with_line_0: bool, toks: Vec<Token>) -> Option<u8> {
@@ -52,18 +53,17 @@ fn execute(with_line_0: bool, toks: Vec<Token>) -> Option<u8> {
     }
     line(&mut i, 10, toks);
     i.program.run_from_first_numbered_line();
-    // variables the shapes read: present with any value of their kind, or absent
-    let present: bool = kani::any();
-    if present {
-        set_num(&mut i, "Y", any_small());
-        set_num(&mut i, "Z", any_small());
-        let r = i.variables.set(sym("S$"), Value::String(std::rc::Rc::new(String::from(pick_str(kani::any())))));
-        kani::assume(r.is_ok());
-        core::mem::forget(r);
-        let r2 = i.variables.set(sym("T$"), Value::String(std::rc::Rc::new(String::from(pick_str(kani::any())))));
-        kani::assume(r2.is_ok());
-        core::mem::forget(r2);
-    }
+    // variables the shapes read hold any value of their kind (an absent variable reads as 0 / "",
+    // which the value sets contain; making presence itself symbolic merges two map shapes and was
+    // measured to push a third of the arms past 6 GB)
+    set_num(&mut i, "Y", any_small());
+    set_num(&mut i, "Z", any_small());
+    let r = i.variables.set(sym("S$"), Value::String(std::rc::Rc::new(String::from(pick_str(kani::any())))));
+    kani::assume(r.is_ok());
+    core::mem::forget(r);
+    let r2 = i.variables.set(sym("T$"), Value::String(std::rc::Rc::new(String::from(pick_str(kani::any())))));
+    kani::assume(r2.is_ok());
+    core::mem::forget(r2);
     resume_at(&mut i, 10, 0);
     let e = stmt(&mut i);
     core::mem::forget(i);
@@ -143,12 +143,18 @@ def shapes(tier):
 
 def generate(prop, tier, seed):
     out = HEADER
+    seen_names = set()
     for k, (label, text, straight, with0, t) in enumerate(shapes(tier)):
-        name = "c06_" + "".join(ch if ch.isalnum() else "_" for ch in label.lower())
-        name = name.replace("__", "_")
+        OPN = {"+": "plus", "-": "minus", "*": "times", "/": "div", "^": "pow", "=": "eq", "<>": "ne", "<": "lt", "<=": "le", ">": "gt", ">=": "ge", "$": "s"}
+        lab = label
+        for sym_, nm in sorted(OPN.items(), key=lambda kv: -len(kv[0])):
+            lab = lab.replace(sym_, " " + nm + " ")
+        name = "c06_" + "_".join("".join(ch if ch.isalnum() else " " for ch in lab.lower()).split())
+        assert name not in seen_names, name
+        seen_names.add(name)
         w0 = "true" if with0 else "false"
         out += '\n// @verif prop=C06 tier=%s timeout=900 mem=6000 cost=80 arms=1 clause="checker accepts => no SYNTAX/TYPE MISMATCH/UNDEF\'D STATEMENT for any variable values; checker rejects a straight-line statement => it fails when executed from a fresh state"\n' % t
-        out += '// @verif sample="10 %s ; variables Y,Z any of 9 numbers (or absent), S$,T$ any of 4 strings (or absent)" bounds="one statement; variable values by symbolic selector"\n' % text.replace('"', "'")
+        out += '// @verif sample="10 %s ; variables Y,Z any of 9 numbers, S$,T$ any of 4 strings" bounds="one statement; variable values by symbolic selector"\n' % text.replace('"', "'")
         out += "#[kani::proof]\n#[kani::unwind(14)]\n" + STUBS
         out += "fn %s() {\n" % name
         out += "    let a = analyze(%s, %s);\n" % (w0, vec(text))
